@@ -235,48 +235,48 @@ func withinQuantum(n, g ref.Num, dp int) *Violation {
 }
 
 func genDP(t *rapid.T, n ref.Num) int {
-	switch rapid.IntRange(0, 9).Draw(t, "dpKind") {
+	switch ir(t, 0, 9, "dpKind") {
 	case 0, 1, 2, 3, 4:
 		// near d's own digits
 		nd := 1
 		if n.Class == ref.Finite {
 			nd = ref.DecLen(n.Coef)
-			return -(n.Exp + rapid.IntRange(-2, nd+3).Draw(t, "j"))
+			return -(n.Exp + ir(t, -2, nd+3, "j"))
 		}
-		return rapid.IntRange(-40, 40).Draw(t, "dp")
+		return ir(t, -40, 40, "dp")
 	case 5:
-		return rapid.IntRange(-7000, 7000).Draw(t, "dp")
+		return ir(t, -7000, 7000, "dp")
 	case 6:
 		return genNear(t, 40, -6111, -6112, -6145, -6146, 6176, 6177, 0)
 	case 7:
-		return []int{math.MinInt, math.MinInt + 1, math.MinInt + 6176, math.MinInt + 6177, math.MaxInt, math.MaxInt - 1, math.MinInt32, math.MaxInt32, -1 << 15, 1 << 15, 1 << 16}[rapid.IntRange(0, 10).Draw(t, "extreme")]
+		return []int{math.MinInt, math.MinInt + 1, math.MinInt + 6176, math.MinInt + 6177, math.MaxInt, math.MaxInt - 1, math.MinInt32, math.MaxInt32, -1 << 15, 1 << 15, 1 << 16}[ir(t, 0, 10, "extreme")]
 	case 8:
 		return 0
 	}
-	return rapid.IntRange(-45, 45).Draw(t, "dpSmall")
+	return ir(t, -45, 45, "dpSmall")
 }
 
 func TestC08_Quantise(t *testing.T) {
 	runRapid(t, 100000, 5000000, func(t *rapid.T) {
 		var v D
-		switch rapid.IntRange(0, 9).Draw(t, "vKind") {
+		switch ir(t, 0, 9, "vKind") {
 		case 0:
 			v = genAny(t)
 		case 1:
 			// values around small integers and halves (dp = 0 functions)
-			c := genDigits(t, rapid.IntRange(1, 8).Draw(t, "len"))
+			c := genDigits(t, ir(t, 1, 8, "len"))
 			if rapid.Bool().Draw(t, "half") {
 				c.Mul(c, ref.Ten)
 				c.Add(c, big5)
 			}
-			v = DFin(genSign(t), c, -rapid.IntRange(0, 8).Draw(t, "scale"))
+			v = DFin(genSign(t), c, -ir(t, 0, 8, "scale"))
 		case 2:
 			// top of the range: carries into overflow
-			v = DFin(genSign(t), fullCoef(t), ref.Emax-rapid.IntRange(0, 3).Draw(t, "top"))
+			v = DFin(genSign(t), fullCoef(t), ref.Emax-ir(t, 0, 3, "top"))
 		case 3, 4:
 			// tie / near-tie at the rounding position: coef = A*10^k + 5*10^(k-1) + tiny, dp = -(exp+k)
-			k := rapid.IntRange(1, 34).Draw(t, "k")
-			alen := rapid.IntRange(0, 35-k).Draw(t, "alen")
+			k := ir(t, 1, 34, "k")
+			alen := ir(t, 0, 35-k, "alen")
 			c := new(big.Int)
 			if alen > 0 {
 				c = genDigits(t, alen)
@@ -287,7 +287,7 @@ func TestC08_Quantise(t *testing.T) {
 			c.Mul(c, ref.Pow10(k))
 			c.Add(c, new(big.Int).Mul(big5, ref.Pow10(k-1)))
 			if k > 1 {
-				c.Add(c, bi(int64(rapid.IntRange(-1, 1).Draw(t, "tiny"))))
+				c.Add(c, bi(int64(ir(t, -1, 1, "tiny"))))
 			}
 			c = capCoef(c)
 			e := genExp(t)
